@@ -82,6 +82,7 @@ class Extractor:
         self.truncated = False
         self.unmodelled = []
         self.all_local_calls = False
+        self.order = []          # read call result SVs in path order (DFS stack discipline)
         self.read_sites = [(self.body.key, bi) for bi, t in self.body.calls() if callee_name(t) in READ_CALLS or callee_name(t) == "std::io::Read::read"]
         self.follow = follow or (lambda callee_body, t: True)
 
@@ -141,12 +142,14 @@ class Extractor:
                 rets.append(self.return_token(S))
         it.cur = (bi, len(blk["stmts"]))
         it.counter = 0
+        mark = len(self.order)
         new = self.tokens_of_block(bi, S)
         toks = toks + rets + new
         res = self._result_of_block(bi, res)
         k = t["k"]
         if k == "return":
             self.paths.append(tuple(toks + [("end", res)]))
+            del self.order[mark:]
             return
         dec = it.eval_op(S, t["discr"]) if k == "switch" else None
         it.cur = (bi, len(blk["stmts"]))
@@ -155,6 +158,7 @@ class Extractor:
         if not edges:
             if k in ("unreachable", "call", "resume", "other"):
                 self.paths.append(tuple(toks + [("end", "diverge")]))
+            del self.order[mark:]
             return
         for s, S2 in edges:
             e = (bi, s)
@@ -181,6 +185,13 @@ class Extractor:
             u2 = dict(used)
             u2[e] = n + 1
             self._dfs(s, toks + extra, u2, ex2, res, S2)
+        del self.order[mark:]
+
+    def names(self):
+        out = {}
+        for i, R in enumerate(self.order):
+            out[("proj", R, (("dc", 0, "Ok"), ("f", 0, "0")))] = "#%d" % (i + 1)
+        return out
 
     def return_token(self, S):
         body = self.body
@@ -191,7 +202,7 @@ class Extractor:
             P = project(R, (("dc", 0, "Ok"), ("f", 0, "0")))
             d = S.dom(P)
             doms.append((rb, d.lo, d.hi, tuple(sorted(d.excl))))
-        return ("returns", render_value(self.prog, v), tuple(doms))
+        return ("returns", render_value(self.prog, v, names=self.names()), tuple(doms))
 
     # --------------------------------------------------------------------------------
     def decision_token(self, bi, succ, dv):
@@ -259,6 +270,7 @@ class Extractor:
             if name in READ_CALLS:
                 w, n = READ_CALLS[name]
                 toks.append(("read", w + endian(t), (body.key, bi)))
+                self.order.append(("call", (body.key, bi, len(body.blocks[bi]["stmts"])), callee_path(t)))
             elif name == "std::io::Read::read_exact":
                 ln = it.len_of_ref(S, args[1], it.op_type(t["args"][1]))
                 toks.append(("read_exact", stable(ln), (body.key, bi)))
@@ -298,10 +310,15 @@ class Extractor:
         return (kind, "hole", stable(sv), d.lo, d.hi)
 
 
-def render_value(prog, v, depth=0):
-    """human-readable constructor term: Amf0Value::Boolean(1), Ok(Some(..)), constants as numbers"""
+def render_value(prog, v, depth=0, names=None):
+    """human-readable constructor term: Amf0Value::Boolean(1), Ok(Some(..)), constants as numbers;
+    values read from the source are named #k by their position on the path"""
     if depth > 5 or not isinstance(v, tuple):
         return "?"
+    if names and v in names:
+        return names[v]
+    if names and v[0] == "cast" and v[2] in names:
+        return "(%s as %s)" % (names[v[2]], v[1])
     h = v[0]
     if h == "k":
         c = const_of(v)
@@ -321,10 +338,13 @@ def render_value(prog, v, depth=0):
                 nm = kind.split("::")[-1]
             if not fields:
                 return nm
-            return "%s(%s)" % (nm, ", ".join(render_value(prog, f, depth + 1) for f in fields))
-        return "%s(%s)" % (kind, ", ".join(render_value(prog, f, depth + 1) for f in fields))
+            return "%s(%s)" % (nm, ", ".join(render_value(prog, f, depth + 1, names) for f in fields))
+        return "%s(%s)" % (kind, ", ".join(render_value(prog, f, depth + 1, names) for f in fields))
     if h == "upd":
-        return render_value(prog, v[1], depth)
+        return render_value(prog, v[1], depth, names)
+    if h == "call" and names:
+        # a local constructor call wrapping a read value, e.g. RtmpTimestamp::new(#2)
+        return stable(v)
     return stable(v)
 
 
